@@ -34,6 +34,10 @@ PLAN = {
                 thorough=dict(n=270, gs=[(g, "d") for g in (0, 1, 2, 3, 4, 8, 9, 10, 11, 12, 13)])),
 }
 
+PLAN["C06"] = dict(fam="c06", chunk=60,
+                   quick=dict(n=18, gs=[(g, "d") for g in (8, 9, 10, 11, 12, 13, 14, 15, 16, 17)] + [(g, "f") for g in (9, 11, 16)]),
+                   thorough=dict(n=400, gs=[(g, "d") for g in (8, 9, 10, 11, 12, 13, 14, 15, 16, 17)] + [(g, "f") for g in (8, 9, 10, 11, 12, 13, 16, 17)]))
+
 ASSUME = [
     "oracle: matrix product / inverse / power series of the documented matrix forms over exact rationals (spec/Groups.tla, RFun.tla); truncation+rounding error of the oracle < 2^-150",
     "TLC, the JVM and the BigRat Java override (differentially tested against the plain TLA+ definitions) are trusted",
@@ -144,6 +148,12 @@ def check(prop, tier, seed, replay=None):
             run_harness(exe, ["--fam", plan["fam"], "--n", str(cfg["n"]), "--seed", str(seed)], out)
             traces.append((out, {"family": "lie", "fam": plan["fam"], "g": g, "sc": sc, "n": cfg["n"], "seed": seed,
                                  "group": GROUPS[g]}))
+        if prop == "C06":
+            # dynamically sized Eigen vectors (sizes 0..6) through the free-function interface
+            exe = V.build_one("lie_dyn.cpp", [])
+            out = os.path.join(workdir, "dyn.ndjson")
+            run_harness(exe, ["--n", "4" if tier == "quick" else "60", "--seed", str(seed)], out)
+            traces.append((out, {"family": "lie", "harness": "lie_dyn", "seed": seed}))
         traces += witnesses(oc, prop, workdir)
     validate_traces(oc, traces, plan["chunk"], workdir)
     rule = ("one evaluation = one recorded library call validated by TLC against the exact reference semantics; "
